@@ -29,7 +29,16 @@
 //     ONE scanner; clone_before: a clone made before the sequence scans every input afterwards, on another thread;
 //     clone_after: a clone made after the sequence; last: the scanner again, every input, reverse order.  Full
 //     results (match details included).
+//     "reuse_buffer": true — every scan reads its input from one allocation overwritten in place (a read buffer).
 //     -> {"fresh":[..], "seq":[{"input":i,"res":..}..], "clone_before":[..], "clone_after":[..], "last":[..]}
+//
+// {"kind":"nest", "rules":[..], "rules2":[..], "csymbols":[..]?, "params":{..}, "outer":{"input":hex|"file":p},
+//   "inner":{..}, "target":"same"|"clone"|"other", "inner_api":"list"|"callback", "at":[k..] ([] = every match),
+//   "deeper":bool}
+//     re-entrancy on one thread: a callback-API scan of `outer`; inside its k-th RuleMatch callback a scan of `inner`
+//     on the same scanner / a clone / another scanner (rules2); optionally one level deeper.  References: each
+//     scan alone on a scanner compiled for it.
+//     -> {"flat_outer", "flat_outer_list", "flat_inner", "nested_outer":{events, inner:[..]}, "after_outer", "after_inner"}
 use std::sync::{Arc, Barrier, Mutex};
 
 use boreal::compiler::CompilerBuilder;
@@ -55,6 +64,7 @@ fn run(case: &Value) -> Value {
         Some("hash") => hash(case),
         Some("conc") => conc(case),
         Some("seq") => seq(case),
+        Some("nest") => nest(case),
         _ => json!({"error": "unknown kind"}),
     }
 }
@@ -540,17 +550,137 @@ fn seq(case: &Value) -> Value {
     let scanner = build().unwrap();
     let before = scanner.clone();
     let order: Vec<usize> = case["order"].as_array().expect("order").iter().map(|v| v.as_u64().unwrap() as usize).collect();
-    let seq: Vec<Value> = order.iter().map(|&i| json!({"input": i, "res": full_scan(&scanner, &inputs[i])})).collect();
-    let clone_before: Vec<Value> = std::thread::scope(|sc| {
+    // "reuse_buffer": every scan of the sequence reads its input from ONE allocation, overwritten in place
+    // (a read buffer): same address, same or different length, different bytes
+    let maxlen = inputs.iter().map(Vec::len).max().unwrap_or(0).max(1);
+    let mut buffer: Option<Vec<u8>> = if get_bool(case, "reuse_buffer") { Some(Vec::with_capacity(maxlen)) } else { None };
+    let mut addresses: Vec<usize> = Vec::new();
+    let seq: Vec<Value> = order
+        .iter()
+        .map(|&i| json!({"input": i, "res": scan_via(&scanner, &inputs[i], buffer.as_mut(), &mut addresses)}))
+        .collect();
+    let (clone_before, mut buffer, mut addresses): (Vec<Value>, Option<Vec<u8>>, Vec<usize>) = std::thread::scope(|sc| {
         let inputs = &inputs;
         let before = &before;
-        sc.spawn(move || inputs.iter().map(|i| full_scan(before, i)).collect()).join().unwrap()
+        sc.spawn(move || {
+            let r = inputs.iter().map(|i| scan_via(before, i, buffer.as_mut(), &mut addresses)).collect();
+            (r, buffer, addresses)
+        })
+        .join()
+        .unwrap()
     });
     let after = scanner.clone();
-    let clone_after: Vec<Value> = inputs.iter().map(|i| full_scan(&after, i)).collect();
-    let mut last: Vec<Value> = inputs.iter().rev().map(|i| full_scan(&scanner, i)).collect();
+    let clone_after: Vec<Value> = inputs.iter().map(|i| scan_via(&after, i, buffer.as_mut(), &mut addresses)).collect();
+    let mut last: Vec<Value> =
+        inputs.iter().rev().map(|i| scan_via(&scanner, i, buffer.as_mut(), &mut addresses)).collect();
     last.reverse();
-    json!({"fresh": fresh, "seq": seq, "clone_before": clone_before, "clone_after": clone_after, "last": last})
+    addresses.sort_unstable();
+    addresses.dedup();
+    json!({"fresh": fresh, "seq": seq, "clone_before": clone_before, "clone_after": clone_after, "last": last,
+           "buffer_addresses": addresses.len()})
+}
+
+fn scan_via(sc: &Scanner, input: &[u8], buffer: Option<&mut Vec<u8>>, addresses: &mut Vec<usize>) -> Value {
+    match buffer {
+        Some(b) => {
+            b.clear();
+            b.extend_from_slice(input); // capacity is the longest input: no reallocation
+            addresses.push(b.as_ptr() as usize);
+            full_scan(sc, &b[..])
+        }
+        None => full_scan(sc, input),
+    }
+}
+
+// ------------------------------------------------------------------------------------------------ re-entrancy
+fn event_json(ev: &ScanEvent) -> Value {
+    match ev {
+        ScanEvent::RuleMatch(r) => json!({"ev": "match", "rule": rule_json(r)}),
+        ScanEvent::RuleNoMatch(r) => json!({"ev": "nomatch", "rule": rule_json(r)}),
+        ScanEvent::ModuleImport(m) => json!({"ev": "import", "module": m.module.get_name()}),
+        _ => json!({"ev": "other"}),
+    }
+}
+
+/// Callback-API scan; at the RuleMatch events whose 1-based number is in `at` (or at every one when `at` is
+/// empty) `inside` is run on the same thread, before the callback returns.
+fn events_scan(sc: &Scanner, input: &[u8], at: Option<&[u64]>, inside: &mut (dyn FnMut() -> Value + Send + Sync)) -> Value {
+    match std::panic::catch_unwind(std::panic::AssertUnwindSafe(|| {
+        let mut events: Vec<Value> = Vec::new();
+        let mut inner: Vec<Value> = Vec::new();
+        let mut nmatch = 0u64;
+        let res = sc.scan_mem_with_callback(input, |ev| {
+            events.push(event_json(&ev));
+            if matches!(ev, ScanEvent::RuleMatch(_)) {
+                nmatch += 1;
+                if let Some(at) = at {
+                    if at.is_empty() || at.contains(&nmatch) {
+                        inner.push(inside());
+                    }
+                }
+            }
+            ScanCallbackResult::Continue
+        });
+        json!({"error": res.err().map(|e| error_name(&e)), "events": events, "inner": inner})
+    })) {
+        Ok(v) => v,
+        Err(e) => json!({"panic": bvh::panic_message(&*e)}),
+    }
+}
+
+fn nest(case: &Value) -> Value {
+    let sink: Sink = Arc::new(Mutex::new(Vec::new()));
+    let other_case = json!({"rules": case["rules2"], "csymbols": case["csymbols"]});
+    let params = build_params(&case["params"]);
+    let build = |other: bool| -> Result<Scanner, String> {
+        let mut s = compile(if other { &other_case } else { case }, &sink)?;
+        s.set_scan_params(params.clone());
+        Ok(s)
+    };
+    let outer_in = job_input(&case["outer"]);
+    let inner_in = job_input(&case["inner"]);
+    let target = case["target"].as_str().unwrap_or("same");
+    let inner_cb = case["inner_api"].as_str() == Some("callback");
+    let deeper = get_bool(case, "deeper");
+    let at: Vec<u64> = case["at"].as_array().map(|a| a.iter().map(|v| v.as_u64().unwrap()).collect()).unwrap_or_default();
+    let mut nothing = || Value::Null;
+
+    // references: each scan alone on a scanner compiled for it
+    let a0 = match build(false) {
+        Ok(s) => s,
+        Err(e) => return json!({"compile_error": e}),
+    };
+    let flat_outer = events_scan(&a0, &outer_in, None, &mut nothing);
+    let flat_outer_list = full_scan(&build(false).unwrap(), &outer_in);
+    let t0 = match build(target == "other") {
+        Ok(s) => s,
+        Err(e) => return json!({"compile_error": e}),
+    };
+    let flat_inner = if inner_cb { events_scan(&t0, &inner_in, None, &mut nothing) } else { full_scan(&t0, &inner_in) };
+
+    // nested: the inner scan runs inside the RuleMatch callback of the outer one
+    let a = build(false).unwrap();
+    let tgt_owned = match target {
+        "same" => None,
+        "clone" => Some(a.clone()),
+        _ => Some(build(true).unwrap()),
+    };
+    let tgt: &Scanner = tgt_owned.as_ref().unwrap_or(&a);
+    let mut inside = || {
+        if inner_cb {
+            // optionally one level deeper: a list scan of the outer input, on the outer scanner, from the inner callback
+            let mut deepest = || full_scan(&a, &outer_in);
+            events_scan(tgt, &inner_in, if deeper { Some(&[1][..]) } else { None }, &mut deepest)
+        } else {
+            full_scan(tgt, &inner_in)
+        }
+    };
+    let nested_outer = events_scan(&a, &outer_in, Some(&at[..]), &mut inside);
+    // and afterwards the scanners still give the same results
+    let after_outer = events_scan(&a, &outer_in, None, &mut nothing);
+    let after_inner = if inner_cb { events_scan(tgt, &inner_in, None, &mut nothing) } else { full_scan(tgt, &inner_in) };
+    json!({"flat_outer": flat_outer, "flat_outer_list": flat_outer_list, "flat_inner": flat_inner,
+           "nested_outer": nested_outer, "after_outer": after_outer, "after_inner": after_inner})
 }
 
 fn conc(case: &Value) -> Value {
